@@ -312,3 +312,62 @@ Proof.
   destruct (elide_elems _ _ _ _ Hin) as [-> |Hin']; [reflexivity|].
   rewrite forallb_forall in H. auto.
 Qed.
+
+(** ** any encoding of the fields, of the list header and of the descriptor
+
+    [decodes_to fuel p w]: the bytes [p], followed by anything, are read by the value decoder as [w]
+    and nothing else is consumed.  The encoder's own bytes are one instance ([decodes_to_enc]); every
+    other spec-valid encoding of [w] that the value decoder accepts (C05_valid_encodings_are_accepted_partial)
+    is another. *)
+Definition decodes_to (fuel : nat) (p : bytes) (w : value) : Prop :=
+  forall rest, dec fuel None (p ++ rest) = Ok (w, None, rest).
+
+Lemma decodes_to_enc fuel w p :
+  wf w = true -> (depth w <= fuel)%nat -> enc Plain w = Some p -> decodes_to fuel p w.
+Proof. intros Hwf Hd E rest. exact (roundtrip_fuel w Hwf fuel Hd p rest E). Qed.
+
+Lemma dec_fields_any fuel : forall ks vs ws parts rest,
+  fields_ok ks vs = true ->
+  presentation ks vs ws = true ->
+  Forall2 (decodes_to fuel) parts ws ->
+  dec_fields fuel ks (lenN ws) (concat parts ++ rest) = Ok (vs, rest).
+Proof.
+  induction ks as [|k ks IH]; intros vs ws parts rest Hok Hp F2.
+  - destruct vs, ws; cbn [presentation] in Hp; try discriminate. inversion F2; subst. reflexivity.
+  - destruct vs as [|v vs]; [discriminate|]. cbn [fields_ok] in Hok. apply andb_true_iff in Hok. destruct Hok as [Hk Hok].
+    destruct ws as [|w ws].
+    + inversion F2; subst. cbn [concat app]. apply dec_fields_missing; [left; reflexivity|exact Hp].
+    + cbn [presentation] in Hp. apply andb_true_iff in Hp. destruct Hp as [Hpw Hp].
+      inversion F2 as [|p ? parts' ? Hpw' F2']; subst.
+      cbn [concat]. rewrite <- app_assoc.
+      pose proof (Hpw' (concat parts' ++ rest)) as Hdec.
+      destruct (dec_ok_head _ _ _ Hdec) as (c & r & Heq & Hkc).
+      cbn [dec_fields]. rewrite Heq. rewrite <- Heq.
+      assert (Hpos : (0 <? lenN (w :: ws)) = true) by (rewrite lenN_cons; lia). rewrite Hpos, Hkc. cbn [negb].
+      rewrite Hdec. cbn [bind]. rewrite (present_ok k v w Hk Hpw). cbn [bind].
+      replace (lenN (w :: ws) - 1) with (lenN ws) by (rewrite lenN_cons; lia).
+      rewrite (IH vs ws parts' rest Hok Hp F2'). reflexivity.
+Qed.
+
+Theorem composite_accepts_any_encoding s d vs ws parts descb hdr fuel rest :
+  fields_ok (s_fields s) vs = true ->
+  presentation (s_fields s) vs ws = true ->
+  (forall r, dec_descriptor None (descb ++ r) = Ok (d, r)) -> descriptor_matches s d = true ->
+  (forall r, list_header (hdr ++ r) = Ok (lenN ws, r)) ->
+  Forall2 (decodes_to fuel) parts ws ->
+  dec_composite fuel s (descb ++ hdr ++ concat parts ++ rest) = Ok (vs, rest).
+Proof.
+  intros Hok Hp Hd Hm Hh F2. unfold dec_composite.
+  rewrite Hd. cbn [bind]. rewrite Hm. cbn [negb]. rewrite Hh. cbn [bind].
+  apply dec_fields_any; assumption.
+Qed.
+
+(** the size field of the list header is not looked at: list8 with any size octet, list32 with any size *)
+Lemma list_header_list8 sz count r : count < 256 -> sz < 256 -> list_header (192 :: sz :: count :: r) = Ok (count, r).
+Proof. intros _ _. reflexivity. Qed.
+Lemma list_header_list32 sz count r :
+  count < 4294967296 -> sz < 4294967296 -> list_header (208 :: to_be 4 sz ++ to_be 4 count ++ r) = Ok (count, r).
+Proof.
+  intros Hc Hs. unfold list_header. cbn -[to_be read_be]. rewrite read_be_to_be by (cbn; lia).
+  cbn -[to_be read_be]. rewrite read_be_to_be by (cbn; lia). reflexivity.
+Qed.
